@@ -3,7 +3,7 @@
 use crate::alloc::{self, set_track};
 use crate::case::{Adapt, Case, Op, OpKind, Owner, Src, Take, NSLOTS};
 use crate::elem::{CElem, Elem, Payload, Probe, ProbeCore, RefProbe};
-use crate::rt::{self, AbortToken, ClonePanic, ClosurePanic, ProbePanic};
+use crate::rt::{self, AbortToken, ClonePanic, ClosurePanic, DropPanic, ProbePanic};
 use crate::tlog;
 use orx_concurrent_iter::iter::atomic_iter::AtomicIter;
 use orx_concurrent_iter::{
@@ -40,6 +40,9 @@ pub fn classify(p: &(dyn Any + Send)) -> &'static str {
     }
     if p.is::<ClosurePanic>() {
         return "closure";
+    }
+    if p.is::<DropPanic>() {
+        return "drop";
     }
     let msg: &str = if let Some(s) = p.downcast_ref::<&'static str>() {
         s
@@ -137,7 +140,13 @@ where
         }
     }
     let l = values.len();
-    drop(values);
+    // a destructor of the chunk's remainder may panic (fault injection): what the caller took before is still the
+    // caller's, so it is recorded (`taken …`) before the panic goes on
+    if let Err(p) = catch_unwind(AssertUnwindSafe(move || drop(values))) {
+        log_taken(&got);
+        untracked(|| drop(got));
+        std::panic::resume_unwind(p);
+    }
     untracked(|| {
         let mut s = format!("ret chunk {} {} {}", begin, a, l);
         for v in &got {
@@ -146,6 +155,21 @@ where
         drop(got);
         s
     })
+}
+
+/// `taken <v1> … <vj>`: elements a caller had received from a chunk / remainder whose drop then panicked.
+fn log_taken(got: &[u64]) {
+    if got.is_empty() {
+        return;
+    }
+    let prev = set_track(false);
+    let mut s = "taken".to_string();
+    for v in got {
+        let _ = write!(s, " {}", v);
+    }
+    tlog!("{}", s);
+    drop(s);
+    set_track(prev);
 }
 
 fn closure_panic(count: &mut u64, panic_at: Option<u64>) {
@@ -366,7 +390,7 @@ where
     <I as ConcurrentIter>::Item: Payload,
 {
     let nt = case.threads.len();
-    rt::begin_case(nt, iter_kind, case.clonepanic);
+    rt::begin_case(nt, iter_kind, case.clonepanic, case.droppanic);
 
     let mut slots: Vec<OnceLock<I>> = (0..NSLOTS).map(|_| OnceLock::new()).collect();
     for (k, slot) in slots.iter().enumerate().take(case.iters) {
@@ -515,7 +539,11 @@ where
                     None => break,
                 }
             }
-            drop(seq);
+            if let Err(p) = catch_unwind(AssertUnwindSafe(move || drop(seq))) {
+                log_taken(&got);
+                untracked(|| drop(got));
+                std::panic::resume_unwind(p);
+            }
             untracked(|| {
                 let mut s = "ret seq".to_string();
                 for v in &got {
